@@ -60,6 +60,8 @@ Lexemes(fam) ==
     [] fam = "esc" ->   \* C18: every string over the meta-characters, the contextual ones, a separator and letters
          <<P(cQ), P(cSTAR), P(cDOL), P(cCOL), P(cLT), P(cGT), P(cLP), P(cRP), P(cLB), P(cRB), P(cLC), P(cRC),
            P(cCOM), P(cDASH), P(cBANG), P(cSEP), P(cA), P(cEAC)>>
+    [] fam = "flags" ->   \* flag placement: before, inside and after branches, next to classes
+         <<P(cA), P(cUA), FlagI, FlagNI, Open, Comma, Close, ROpen, R12, ClsA>>
     [] fam = "deep" ->
          <<P(cA), P(cSEP), Open, Comma, Close, ROpen, R12, R01>>
 
